@@ -195,7 +195,7 @@ func init() {
 			return 8
 		},
 		MaxPar:      16,
-		Cases:       func(r *obs.Run) int { return r.Share(len(c12Enumerate(!r.Thorough()))) + r.Share(r.Pick(300, 12000)) },
+		Cases:       func(r *obs.Run) int { return r.Share(len(c12Enumerate(!r.Thorough()))) + r.Share(r.Pick(600, 12000)) },
 		Setup:       func(r *obs.Run) { r.WatchDeadlock(5*time.Second, 2*time.Minute) },
 		Case:        c12Case,
 		MinDistinct: func(t string) int { return 150 },
